@@ -485,6 +485,11 @@ class Runner(object):
         if L is None or type(L.t).__name__ != "RawExec":
             ck.count("%s.other-loader" % fmt)
             return
+        want = {"hex": "HEX", "srec": "SREC", "raw": "shellcode"}[fmt]
+        if type(L.t.bin).__name__ != want:
+            # e.g. a blob of white-space bytes is identified as an S-record file without records (identification is C20's subject)
+            ck.count("%s.identified-as-%s" % (fmt, type(L.t.bin).__name__))
+            return
         names = R.Names()
         lo = min(a for a, b in recs) if recs else 0
         hi = max(a + len(b) for a, b in recs) if recs else 0
@@ -502,6 +507,27 @@ class Runner(object):
         loader = {"seg": "start-segment-address", "lin": "start-linear-address"}.get(aspect_entry, "raw")
         self.compare(fmt, loader, case, L, names, model, ranges, fetch, O.records_facts(recs), entry, 32,
                      all(len(b) for a, b in recs), "Amoco.Loader.Props.loader_image", later_wins=True, req=req)
+        # RawExec.relocate(v): the image moves as a whole, pc = v
+        if all(len(b) for a, b in recs) and not model.get("empty"):
+            v = r.choice([0, 0x1000, r.randrange(0, 1 << 31)])
+            m2 = drv.ask(dict(req, relocate=v, ranges=[], fetch=[]))
+            try:
+                L.t.relocate(v)
+                robj, rpc = L.objects(names), L.pc()
+            except Exception as ex:
+                robj, rpc = repr(ex), None
+            ck.count("relocate")
+            if not isinstance(m2, dict) or robj != m2["task"]["zone"] or L.cache() != m2["task"]["cache"] or rpc != m2["task"]["pc"]:
+                self.broken("relocate:" + fmt, dict(case, relocate=v), [rpc, short(robj)],
+                            [m2["task"]["pc"], short(m2["task"]["zone"])] if isinstance(m2, dict) else m2,
+                            "correspondence RawExec.relocate ~ Amoco.Loader.relocate")
+            elif recs:
+                lo2 = min(a for a, b in recs)
+                exp = O.Image(O.records_facts([(a - lo2 + v, b) for a, b in recs])).expected_later_wins(v - 1, min(hi - lo + 2, RANGE_CAP))
+                bad = O.judge(exp, R.unchunk(L.chunks(v - 1, min(hi - lo + 2, RANGE_CAP), names)), names)
+                if bad is not None or rpc != v % (1 << 32):
+                    self.violation(fmt, "relocate", "raw", "after relocate(%#x): %s" % (v, short(bad) if bad else "pc = %s" % rpc),
+                                   dict(case, relocate=v), short(bad), None, None, "Amoco.Loader.Props.relocate_image")
         overl = any(a1 < a2 + len(b2) and a2 < a1 + len(b1) for i, (a1, b1) in enumerate(recs) for (a2, b2) in recs[:i])
         ck.case((fmt, tag), nontrivial=overl or len(recs) > 1)
         if self.n % 41 == 1:
@@ -640,8 +666,36 @@ def main(tier):
     for f in files:
         run.any_file(f, [4096, 256] if quick else [4096, 256, 16, 0x10000, 1000])
 
+    # the independent reader itself is cross-checked against binutils' readelf
+    import tempfile, shutil
+    bad_re, nre = None, 0
+    if shutil.which("readelf"):
+        tmpd = tempfile.mkdtemp(prefix="c15-readelf-")
+        cands = [(f, open(f, "rb").read()) for f in files if open(f, "rb").read(4) == b"\x7fELF"]
+        gg = load_gen.ElfGen(None, None)
+        for n in range(25 if quick else 400):
+            gg.r = rng("C15/readelf/%d" % n)
+            d_, _m = gg.image()
+            fn = os.path.join(tmpd, "g%d.elf" % n)
+            open(fn, "wb").write(d_)
+            cands.append((fn, d_))
+        for fn, d_ in cands:
+            got = O.readelf_loads(fn)
+            if got is None:
+                continue
+            e_ = O.elf_read(d_)
+            mine = [(p["offset"], p["vaddr"], p["filesz"], p["memsz"]) for p in e_.phdrs if p["type"] == O.PT_LOAD]
+            nre += 1
+            if got != mine:
+                bad_re = (fn, got[:4], mine[:4])
+        shutil.rmtree(tmpd, ignore_errors=True)
+        ck.oblige("oracle cross-check: PT_LOAD table of load_oracle.elf_read = readelf -lW on %d files" % nre, bad_re is None, repr(bad_re))
+        if bad_re:
+            run.broken("oracle-vs-readelf", {"file": bad_re[0]}, bad_re[1], bad_re[2], "load_oracle.elf_read vs readelf -lW")
+        ck.count("readelf.cross-checked", nre)
+
     g = load_gen.ElfGen(None, ck)
-    nelf = 260 if quick else 6000
+    nelf = 450 if quick else 8000
     for n in range(nelf):
         r = rng("C15/elf/%d" % n)
         g.r = r
@@ -649,19 +703,19 @@ def main(tier):
         run.elf(data, meta["ps"], "gen:%d" % n, meta=meta)
         if len(ck.violations) >= 6:
             break
-    for n in range(50 if quick else 1200):
+    for n in range(80 if quick else 1500):
         r = rng("C15/pe/%d" % n)
         data, meta = load_gen.pe_image(r, ck)
         run.pe(data, "gen:%d" % n, meta=meta)
-    for n in range(40 if quick else 800):
+    for n in range(60 if quick else 1000):
         r = rng("C15/macho/%d" % n)
         data, meta = load_gen.macho_image(r, ck)
         run.macho(data, "gen:%d" % n, meta=meta)
-    for n in range(60 if quick else 1500):
+    for n in range(120 if quick else 2500):
         r = rng("C15/hex/%d" % n)
         data, meta = load_gen.hex_stream(r, ck)
         run.records("hex", data, "gen:%d" % n, meta=meta)
-    for n in range(60 if quick else 1500):
+    for n in range(120 if quick else 2500):
         r = rng("C15/srec/%d" % n)
         data, meta = load_gen.srec_stream(r, ck)
         run.records("srec", data, "gen:%d" % n, meta=meta)
